@@ -1,0 +1,18 @@
+//go:build verif
+
+// Seam for the deterministic-simulation harness (/verif).  This file only
+// exists with the "verif" build tag; without it clientOverride stays nil and
+// CreateClient behaves exactly as before.
+
+package utils
+
+import (
+	"github.com/projectcalico/calico/cni-plugin/pkg/types"
+	client "github.com/projectcalico/calico/libcalico-go/lib/clientv3"
+)
+
+// SetClientOverrideForSim installs (or, with nil, removes) the function that
+// CreateClient consults before building a client from the environment.
+func SetClientOverrideForSim(f func(conf types.NetConf) client.Interface) {
+	clientOverride = f
+}
